@@ -75,7 +75,10 @@ def run(ctx):
         pb, opts, desc = S["pb"], S["opts"], S["desc"]
         if S["raised"] is not None:
             must_raise = S["first"] > S["budget"]
-            if not must_raise and S["inj_kind"] != "neg-inf" and not (opts.get("max_prior_samples") or 0) > pb.N:
+            ev_ = np.concatenate(S["eval_log"]) if S["eval_log"] else np.array([], dtype=int)
+            nonfinite_seen = bool(len(ev_)) and bool(np.any(~np.isfinite(S["ll_lib"][ev_])))
+            if (not must_raise and S["inj_kind"] != "neg-inf" and not (opts.get("max_prior_samples") or 0) > pb.N
+                    and not nonfinite_seen):
                 key = classify_exception(S["raised"], opts)
                 ctx.exception(S["raised"], "iterative_rejection_sample(return_logprobs=True)", desc, key=key)
             continue
